@@ -122,6 +122,6 @@ def tcp_dialer_queries(tier):
 
 
 MANIFEST = {
-    "text": "Bounded symbolic check of the real core/aio.c under nested schedules (every outer operation word x every single operation of another thread at a symbolic yield point: callback exactly once, never a timeout before the deadline, first winner's result, nothing pending after nng_aio_stop), of its timing rules in sequential words with a shadow deadline that is independent of the aio's fields (which of nng_aio_set_timeout / nng_aio_set_expire decides, zero/infinite/default, nng_sleep_aio within / beyond the aio timeout, a cancel after completion does not reach the next operation and does not change the result the operation was completed with), of its expiry thread with up to 4 timed operations and a batch size of 2 (every due operation is completed once with NNG_ETIMEDOUT, never early, the thread never sleeps past one that is due), of the real core/taskq.c busy accounting (each dispatch/exec runs the callback exactly once, busy <=> something outstanding, wait returns only then) and of nni_dialer_start_aio / dialer_connect_cb completing the user aio exactly once. Also the TCP stream dialer of the real core/tcp.c: several dials queued on one dialer, served one at a time by lookup + connect - each completes exactly once with the result of the event that decided it, and while a dial waits on an open dialer a lookup or connect is in progress (nothing stays pending for ever), incl. the connect-succeeds-then-cancelled race.",
+    "text": "Bounded symbolic check of the real core/aio.c under nested schedules (every outer operation word x every single operation of another thread at a symbolic yield point: callback exactly once, never a timeout before the deadline, first winner's result, nothing pending after nng_aio_stop), of its timing rules in sequential words with a shadow deadline that is independent of the aio's fields (which of nng_aio_set_timeout / nng_aio_set_expire decides, zero/infinite/default, nng_sleep_aio within / beyond the aio timeout, a cancel after completion does not reach the next operation and does not change the result the operation was completed with), of its expiry thread with up to 4 timed operations and a batch size of 2 (every due operation is completed once with NNG_ETIMEDOUT, never early, the thread never sleeps past one that is due), of the real core/taskq.c busy accounting (each dispatch/exec runs the callback exactly once, busy <=> something outstanding, wait returns only then) and of nni_dialer_start_aio / dialer_connect_cb completing the user aio exactly once. Also the TCP stream dialer of the real core/tcp.c: several dials queued on one dialer, served one at a time by lookup + connect - each completes exactly once with the result of the event that decided it, and while a dial waits on an open dialer a lookup or connect is in progress (nothing stays pending for ever), incl. the connect-succeeds-then-cancelled race. The completion list of the real core/aio.c (every collected operation completed exactly once with its own result and count) and the connect request of the tcp / ipc transport dialers.",
     "note": "Nesting depth 1 (one foreign operation inside one gap); overlapping critical sections and real task/expire threads are outside; CBMC cannot encode true preemption for this code (pointer handling for concurrency unsound).",
 }
